@@ -246,6 +246,13 @@ fn backend<B: Backend>(opts: &Opts, rep: &mut Report) {
                             take_events();
                             probe_case::<B>(rep, &k2, "one-bit-key-after-right-key", &tok, aad);
                         }
+                        for (_, r2) in crate::monitors::c02::related_wrong_keys(&raw) {
+                            let k2 = KeyPair::<B>::from_raw(Purp::Local, &r2).unwrap();
+                            DECODE_OK.with(|d| d.set(true));
+                            let _ = guard(|| unseal_probe::<B>(&kp, &tok, aad));
+                            take_events();
+                            probe_case::<B>(rep, &k2, "related-key-after-right-key", &tok, aad);
+                        }
                     }
                     // the header names the payload encoding: a token relabelled to / from a suffixed encoding
                     {
@@ -270,6 +277,40 @@ fn backend<B: Backend>(opts: &Opts, rep: &mut Report) {
                         }
                         probe_case::<B>(rep, &kp, "header-relabel-to-suffixed", &join_token(&kp.header_x(), &body, footer), aad);
                         USE_X.with(|x| x.set(false));
+                    }
+                    // typed footers: the footer bytes changed into other bytes that decode to the same value
+                    {
+                        use paseto_json::Json;
+                        let fv = json!({"kid": "key-1", "n": 1});
+                        if let Ok(tj) = kp.seal_t(Raw(msg.clone()), Json(fv.clone()), aad) {
+                            let (h, body, f) = split_token(&tj);
+                            let ftxt = String::from_utf8_lossy(&f).into_owned();
+                            for v in [format!(" {ftxt}"), format!("{ftxt}\n"), ftxt.replace(':', ": "), r#"{"n":1,"kid":"key-1"}"#.to_string(), r#"{"kid":"key-1","n":1,"admin":true}"#.to_string(), ftxt.replace("key-1", "key\\u002d1")] {
+                                if v.as_bytes() == f {
+                                    continue;
+                                }
+                                let t2 = join_token(&h, &body, v.as_bytes());
+                                let label = format!("{}.{}.footer-equivalent-json-text", B::NAME, p.name());
+                                for decode_ok in [true, false] {
+                                    DECODE_OK.with(|d| d.set(decode_ok));
+                                    take_events();
+                                    let res = guard(|| match &kp {
+                                        KeyPair::Local(k) => t2.parse::<EncryptedToken<B, Probe, Json<serde_json::Value>>>().and_then(|t| t.decrypt_with_aad(k, aad, &ProbeValidator)).map(|_| ()),
+                                        KeyPair::Public(_, pk) => t2.parse::<SignedToken<B, Probe, Json<serde_json::Value>>>().and_then(|t| t.verify_with_aad(pk, aad, &ProbeValidator)).map(|_| ()),
+                                    });
+                                    let ev = take_events();
+                                    let d = json!({"backend": B::NAME, "purpose": p.name(), "token": t2, "original_footer": ftxt, "changed_footer": v, "events": ev.iter().map(|(n, b)| format!("{n}({}B)", b.len())).collect::<Vec<_>>()});
+                                    match res {
+                                        Ok(Ok(())) => rep.violation(&format!("C12|{}|{}|forged-token-accepted:footer-equivalent-json-text", B::NAME, p.name()), d),
+                                        Ok(Err(_)) if !ev.is_empty() => rep.violation(&format!("C12|{}|{}|decoder-invoked-on-unauthenticated-bytes:footer-equivalent-json-text", B::NAME, p.name()), d),
+                                        Ok(Err(_)) => {}
+                                        Err(pn) => rep.violation(&format!("C12|{}|{}|panic:footer-equivalent-json-text", B::NAME, p.name()), json!({"token": t2, "panic": pn})),
+                                    }
+                                }
+                                DECODE_OK.with(|d| d.set(true));
+                                rep.case(&label, fnv(t2.as_bytes()), true);
+                            }
+                        }
                     }
                     // too short: header only, and every length below the minimum
                     let (hdr, body, _) = split_token(&tok);
